@@ -21,6 +21,7 @@ pub enum Profile {
     TwoHop,
     Lifecycle,
     Admin,
+    Byz,
 }
 
 impl Profile {
@@ -33,6 +34,7 @@ impl Profile {
             "twohop" => Profile::TwoHop,
             "lifecycle" => Profile::Lifecycle,
             "admin" => Profile::Admin,
+            "byz" => Profile::Byz,
             _ => return None,
         })
     }
@@ -45,6 +47,7 @@ impl Profile {
             Profile::TwoHop => "twohop",
             Profile::Lifecycle => "lifecycle",
             Profile::Admin => "admin",
+            Profile::Byz => "byz",
         }
     }
 }
@@ -81,6 +84,10 @@ pub struct Knobs {
     pub extreme_rewards: bool,
     /// only the v2 instructions (needed for Token-2022 mints)
     pub v2_only: bool,
+    pub has_rewards: bool,
+    pub has_admin: bool,
+    /// share of LP wake-ups that follow the life-cycle plan (legal and illegal transitions)
+    pub lifecycle_pct: u64,
 }
 
 #[derive(Clone, Debug, Default)]
@@ -267,6 +274,13 @@ pub fn make_knobs(profile: Profile, rng: &mut Rng, thorough: bool) -> Knobs {
         adaptive_pct: 0,
         extreme_rewards: false,
         v2_only: false,
+        has_rewards: profile == Profile::Rewards || profile == Profile::Byz,
+        has_admin: profile == Profile::Admin || profile == Profile::Byz,
+        lifecycle_pct: match profile {
+            Profile::Lifecycle => 75,
+            Profile::Byz => 40,
+            _ => 0,
+        },
     };
     if let Some(kd) = FORCE_ARRAY_KIND.with(|c| c.get()) {
         k.array_kind = kd;
@@ -293,6 +307,14 @@ pub fn make_knobs(profile: Profile, rng: &mut Rng, thorough: bool) -> Knobs {
             k.clock_stall_pct = pct(rng, 5, 2, 10);
             k.clock_jump_pct = pct(rng, 6, 2, 10);
             k.clock_back_pct = pct(rng, 4, 1, 6);
+        }
+        Profile::Byz => {
+            k.n_pools = 2 + rng.below(2) as usize;
+            k.n_lps = 3;
+            k.n_traders = 2;
+            k.adaptive_pct = 50;
+            k.cpi_fail_pct = 0;
+            k.drop_pct = 0;
         }
         Profile::Admin => {
             k.n_lps = 2;
@@ -558,7 +580,7 @@ impl Gen {
         }
         // reward mints (Rewards profile): authority is the reward super authority's wallet
         let mut reward_mints: Vec<MintInfo> = Vec::new();
-        if knobs.profile == Profile::Rewards {
+        if knobs.has_rewards {
             for _ in 0..3 {
                 let mk = new_key(&mut rng);
                 world::create_mint(&mut l, &payer, &mk, &reward_super, 6, None);
@@ -591,7 +613,7 @@ impl Gen {
                 rng: arng,
             });
         }
-        if knobs.profile == Profile::Admin && rng.chance(3, 4) {
+        if knobs.has_admin && rng.chance(3, 4) {
             world::must(
                 &mut l,
                 vec![
@@ -609,13 +631,13 @@ impl Gen {
         }
         // the fee authority and the collector act through their own wallets
         let mut special = vec![(Role::FeeAuth, fee_authority), (Role::Collector, collector)];
-        if knobs.profile == Profile::Rewards {
+        if knobs.has_rewards {
             special.push((Role::RewardAuth, reward_super));
         }
         if knobs.profile == Profile::T22 {
             special.push((Role::MintAuth, mint_authority));
         }
-        if knobs.profile == Profile::Admin {
+        if knobs.has_admin {
             special.push((Role::Admin, fee_authority));
             special.push((Role::Creator, payer));
         }
@@ -875,7 +897,7 @@ impl Gen {
         let mut actor = self.w.actors[id].clone();
         let flow = match actor.role {
             Role::Lp => {
-                if self.knobs.profile == Profile::Lifecycle && actor.rng.chance(3, 4) {
+                if self.knobs.lifecycle_pct > 0 && actor.rng.chance(self.knobs.lifecycle_pct, 100) {
                     crate::gen3::plan_lifecycle_lp(&self.w, &self.knobs, &mut actor, ledger)
                 } else {
                     plan_lp(&self.w, &self.knobs, &mut actor, ledger)
@@ -1112,7 +1134,7 @@ fn plan_lp(w: &World, knobs: &Knobs, actor: &mut Actor, l: &Ledger) -> Vec<(Tx, 
     let rng = &mut actor.rng.clone();
     let mut flow: Vec<(Tx, String)> = Vec::new();
     let mut action = if mine.is_empty() { 0 } else { rng.below(12) };
-    if !mine.is_empty() && knobs.profile == Profile::Rewards && rng.chance(1, 4) {
+    if !mine.is_empty() && knobs.has_rewards && rng.chance(1, 4) {
         action = 100;
     }
     match action {
